@@ -58,6 +58,7 @@ def install():
         return x.min(*a, **k)
     torch.max, torch.min = tmax, tmin
     torch.is_tensor = lambda x: isinstance(x, T.Tensor)
+    torch.Size = T.Size
     torch.is_floating_point = lambda x: x.is_floating_point()
     torch.typename = lambda o: type(o).__name__
     torch.set_grad_enabled = tn.set_grad_enabled
